@@ -3,7 +3,7 @@
 //! (tagged C15); this file adds boxed-vs-fixed pairs for the linear operations at 64-bit words.
 use crate::__verif_common::boxed::*;
 use crate::__verif_common::*;
-use crate::{BoxedUint, Limb, NonZero, Reciprocal, Uint, Word, U128};
+use crate::{BoxedUint, Uint, U128};
 
 fn same2(b: &BoxedUint, f: &Uint<2>) -> bool {
     b.nlimbs() == 2 && b.bits_precision() == 128 && words_eq(&bwords::<2>(b), &words_of(f))
@@ -61,19 +61,3 @@ fn c15_boxed_vs_fixed_bits_2() {
     core::mem::forget((b, c, and, or, xor, not));
 }
 
-//@ prop=C15,C02 tier=quick profile=k64 funcs="Reciprocal::new,Uint::div_rem_limb,Uint::div_rem_limb_with_reciprocal,Uint::rem_limb,Uint::rem_limb_with_reciprocal" bound="Uint<2>, divisor shaped S(4): one-shot vs precomputed reciprocal give identical (q, r); reciprocal fields self-consistent" free_bits=133
-#[kani::proof]
-#[kani::unwind(14)]
-fn c15_reciprocal_precomputed_vs_oneshot() {
-    let n: Uint<2> = any_uint();
-    let d: Word = shaped_word(4);
-    kani::assume(d != 0);
-    let dz = NonZero::new(Limb(d)).unwrap();
-    let rec = Reciprocal::new(dz);
-    assert!(rec.shift() == d.leading_zeros());
-    let (q1, r1) = n.div_rem_limb(dz);
-    let (q2, r2) = n.div_rem_limb_with_reciprocal(&rec);
-    assert!(q1 == q2 && r1 == r2);
-    assert!(n.rem_limb(dz) == r1 && n.rem_limb_with_reciprocal(&rec) == r1);
-    assert!(r1.0 < d);
-}
